@@ -1,6 +1,6 @@
 """./check <ID> [--tier quick|thorough] [--replay FILE]
 
-Fans a property's workload out over shard processes (fresh interpreters, no byte-code, PYTHONHASHSEED pinned),
+Fans a property's workload out over shard processes (fresh interpreters, no byte-code, PYTHONHASHSEED 0..3 by shard index),
 merges what the monitors observed, classifies violations against KNOWN_FINDINGS.json, writes the evidence
 file and decides the exit code:  0 held on what was observed / 1 VIOLATION / 2 INCONCLUSIVE.
 """
@@ -75,6 +75,9 @@ class _cpu_slot:
         return False
 
 
+HASHSEEDS = (0, 1, 2, 3)
+
+
 def run_shards(pid, tier, seed, specs, timeout):
     work = os.path.join(env.WORK, f"run-{pid}-{os.getpid()}")
     os.makedirs(work, exist_ok=True)
@@ -91,7 +94,9 @@ def run_shards(pid, tier, seed, specs, timeout):
         with open(specf, "w") as fh:
             json.dump(spec, fh)
         e = dict(os.environ)
-        e["PYTHONHASHSEED"] = "0"
+        # str / bytes hashing differs between the shard processes (set and dict-of-set iteration orders with it); shard 0 keeps seed 0.
+        # The seed is stored with every violation and restored by --replay.
+        e["PYTHONHASHSEED"] = str(HASHSEEDS[k % len(HASHSEEDS)])
         e["PYTHONDONTWRITEBYTECODE"] = "1"
         e["BIOCANTOR_VERIF"] = "1"
         e["VERIF_REPO"] = env.REPO
@@ -315,6 +320,7 @@ def _base_assumptions():
     return compat.assumptions() + [
         "CPython 3.12 in /venv; icontract 2.7.3 from the offline wheelhouse",
         "pure-Python code paths only: cgranges, pysam, pyvcf are not installed and cannot be driven",
+        "shard processes run under PYTHONHASHSEED 0, 1, 2, 3 (by shard index): four str-hash orders were observed, not all",
         "verdict = held on the executions described here, not a proof",
     ]
 
@@ -325,6 +331,9 @@ def do_replay(pid, mod, path):
 
     with open(path) as fh:
         rec = json.load(fh)
+    hs = str(rec.get("hashseed", 0))
+    if os.environ.get("PYTHONHASHSEED") != hs:      # same str hashing as the shard that recorded the case
+        os.execve(sys.executable, [sys.executable, "-B"] + sys.argv, dict(os.environ, PYTHONHASHSEED=hs))
     ctx = core.Ctx(pid, rec.get("tier", "quick"), rec.get("seed", 0))
     ctx.spec = {"i": 0, "n": 1, "replay": True}
     reach.watch(getattr(mod, "REACH", []))
